@@ -141,6 +141,36 @@ def main(tier):
                         rep.add_ground(f"{pre}/load_payload_module", via is mod)
                     except Exception as ex:   # noqa: BLE001
                         rep.add_ground(f"{pre}/load_payload_module", False, repr(ex))
+    # the key-based loaders over every (key, version), in two different orders (a lookup must not depend on history)
+    expected = {}
+    for name, vm in schema_name_map.items():
+        for ver, tm in vm.items():
+            for et, path in tm.items():
+                if et in (EntityType.request, EntityType.response):
+                    key = [k for k, n in api_key_map.items() if n == name]
+                    if key:
+                        expected[(key[0], ver, et)] = path
+    for label, order in (("ascending", sorted(expected, key=lambda t: (t[0], t[1], t[2].name))),
+                         ("descending", sorted(expected, key=lambda t: (t[0], t[1], t[2].name), reverse=True))):
+        for (k, ver, et) in order:
+            fn = index.load_request_schema if et is EntityType.request else index.load_response_schema
+            try:
+                cls = fn(k, ver)
+                ok = f"{cls.__module__}:{cls.__qualname__}" == expected[(k, ver, et)]
+                detail = f"{cls.__module__}:{cls.__qualname__}"
+            except Exception as ex:       # noqa: BLE001
+                ok, detail = False, repr(ex)
+            rep.add_ground(f"C09/loader/{label}/{fn.__name__}({k},{ver})", ok, detail)
+        for (k, ver, et) in order[:: max(1, len(order) // 60)]:
+            for bad in (ver + 1000, -1 - ver):
+                fn = index.load_request_schema if et is EntityType.request else index.load_response_schema
+                try:
+                    cls = fn(k, bad)
+                    rep.add_ground(f"C09/loader/{label}/{fn.__name__}({k},{bad})-unknown", False, f"returned {cls}")
+                except index.UnknownEntity:
+                    rep.add_ground(f"C09/loader/{label}/{fn.__name__}({k},{bad})-unknown", True)
+                except Exception as ex:       # noqa: BLE001
+                    rep.add_ground(f"C09/loader/{label}/{fn.__name__}({k},{bad})-unknown", False, repr(ex))
     disk = {m[0] for m in SF.walk_modules()}
     for m in sorted(disk - indexed_modules):
         rep.add_ground(f"C09/reachable/{m}", False, "schema module on disk is not reachable through the index")
